@@ -589,8 +589,8 @@ pub fn run(ctx: &Ctx) -> Report {
     rep.need(L_S_SEND, 300 * scale);
     rep.need(L_ALLOCS, 500_000 * scale);
     rep.need(c11::L_THREAD, 300 * scale);
-    run_regressions(ctx, &mut rep, &|v| replay(ctx, v));
-    report_known(ctx, &mut rep, &|v| replay(ctx, v));
+    run_regressions(ctx, &mut rep, &|v| replay(&ctx.strict_clone(), v));
+    report_known(ctx, &mut rep, &|v| replay(&ctx.strict_clone(), v));
     let out = if q {
         run_random(ctx.seed, 100_000, 1000, c11::decode, |c, st| oracle_hist(c, st, tol))
     } else {
